@@ -535,7 +535,7 @@ func (db *DB) loadIndexFromDataFiles(fileIds []uint32, nonMergeFileId uint32) er
 	transactionRecords := make(map[uint64][]*datafile.TransactionRecords)
 
 	// 从小到大遍历数据文件 id 顺序更新索引, 保证最终索引记录最新数据信息
-	for _, fileId := range fileIds {
+	for i, fileId := range fileIds {
 		// 已通过 hint 文件加载, 无需重复加载
 		if fileId < nonMergeFileId {
 			continue
@@ -552,6 +552,14 @@ func (db *DB) loadIndexFromDataFiles(fileIds []uint32, nonMergeFileId uint32) er
 			logRecord, pos, err := reader.NextLogRecord()
 			if err != nil {
 				if err == io.EOF {
+					break
+				}
+				// 最新数据文件末尾的不完整记录是写入中途崩溃的残留, 其写入从未被确认
+				// 将其截断, 使后续追加的记录紧随最后一条完整记录
+				if err == datafile.ErrIncompleteTail && i == len(fileIds)-1 {
+					if err := dataFile.TruncateTo(reader.Position()); err != nil {
+						return err
+					}
 					break
 				}
 				return err
